@@ -476,7 +476,13 @@ func c17Families(tier string) []explore.Family {
 		s := strconv.FormatInt(v, 10)
 		mags = append(mags, numVal{"i" + s, int(v), rat(v, 1), "int", s}, numVal{"f" + s, float64(v), rat(v, 1), "float", ""})
 	}
-	smallOps := []numVal{{"1", 1, rat(1, 1), "int", "1"}, {"-1", -1, rat(-1, 1), "int", "-1"}, {"2", 2, rat(2, 1), "int", "2"}, {"0.5", 0.5, rat(1, 2), "float", "0.5"}, {"3", 3, rat(3, 1), "int", "3"}, {"7.0", 7.0, rat(7, 1), "float", ""}}
+	// whole numbers beyond 2^53, some exactly representable as float64 and some not (those are judged within a tolerance), next to operands of every integer width
+	for _, v := range []int64{1<<53 + 1, 1<<53 + 2, 1<<54 + 4, 1<<55 + 8, 1<<60 + 1<<9, 1<<60 + 1, 1 << 62, -(1<<53 + 2), -(1<<60 + 1<<8)} {
+		s := strconv.FormatInt(v, 10)
+		mags = append(mags, numVal{"i" + s, int(v), rat(v, 1), "int", s})
+	}
+	smallOps := []numVal{{"u3", uint(3), rat(3, 1), "int", ""}, {"u64_7", uint64(7), rat(7, 1), "int", ""}, {"u8_3", uint8(3), rat(3, 1), "int", ""}, {"i8_m3", int8(-3), rat(-3, 1), "int", ""}, {"i64_3", int64(3), rat(3, 1), "int", ""}, {"u16_1", uint16(1), rat(1, 1), "int", ""},
+		{"1", 1, rat(1, 1), "int", "1"}, {"-1", -1, rat(-1, 1), "int", "-1"}, {"2", 2, rat(2, 1), "int", "2"}, {"0.5", 0.5, rat(1, 2), "float", "0.5"}, {"3", 3, rat(3, 1), "int", "3"}, {"7.0", 7.0, rat(7, 1), "float", ""}}
 	M := len(mags)
 	fams = append(fams, explore.Family{Name: "scaled-magnitudes", Count: int64(M * len(smallOps) * len(binOps) * 2), Run: func(i int64, r *explore.Rec) {
 		rx := radix{i}
@@ -486,10 +492,13 @@ func c17Families(tier string) []explore.Family {
 			a, b = b, a
 		}
 		src := "{{ a | " + op + ": b }}"
+		if !(exactF64(a.r) && exactF64(b.r)) && (op == "modulo" || op == "divided_by") {
+			return // remainder and integer quotient jump: no tolerance is meaningful for an operand that no float64 holds
+		}
 		r.Eval()
 		r.Transition()
 		o := Render(c17.eng, src, map[string]any{"a": a.v, "b": b.v})
-		judgeNum(r, "scaled:"+op, func() any { return map[string]any{"template": src, "a": a.name, "b": b.name} }, refBin(op, a.r, b), true, o)
+		judgeNum(r, "scaled:"+op, func() any { return map[string]any{"template": src, "a": a.name, "b": b.name} }, refBin(op, a.r, b), exactF64(a.r) && exactF64(b.r), o)
 		r.State("scaled:" + op)
 	}})
 	fams = append(fams, explore.Family{Name: "scaled-unary", Count: int64(M * 5), Run: func(i int64, r *explore.Rec) {
